@@ -348,14 +348,29 @@ def mle_container_job(n, container, int_counts=False):
         C[0][0] = c00
         A = funcs.np_array(C, dtype=int if int_counts else float)
         A0 = A.copy()
+        dup = None
         if container == 'ndarray-F':          # column-major dense counts (np.asfortranarray, a transposed view, csc.toarray())
             arg = A.T.copy().T
+        elif container == 'coo-dup':
+            # a COO matrix with REPEATED coordinates, exactly what assigns_to_counts returns (one stored 1 per observed transition):
+            # the matrix value is the sum of the stored entries.  Every cell is split into two stored entries.
+            dup = []
+            for i in range(n):
+                for j in range(n):
+                    part = core.fresh_real('part')
+                    ctx.add(core.to_z3_bool(part >= 0))
+                    ctx.add(core.to_z3_bool(part <= C[i][j]))
+                    dup += [(part, i, j), (C[i][j] - part, i, j)]
+            arg = ssp.CLASSES['coo']((funcs.np_array([e[0] for e in dup], dtype=float),
+                                      (np.array([e[1] for e in dup]), np.array([e[2] for e in dup]))), shape=(n, n))
         else:
             arg = ssp.CLASSES[container](A)
         exc = None
         try:
             Cout, T, pi = bounded(lambda: b.mle(arg))
-            _, Tr, pir = bounded(lambda: b.mle(A.copy()))
+            # (reference run on the dense form of the same argument: for repeated coordinates the cells are the same sums of stored
+            # entries in both runs, so that abstracted operations - quotients, squares - get the same arguments)
+            _, Tr, pir = bounded(lambda: b.mle(arg.toarray().copy() if dup is not None else A.copy()))
             Trl = [[_raw(Tr)[i, j] for j in range(n)] for i in range(n)]
             pirl = cells(pir)
             Td = T.toarray() if isinstance(T, ssp.SymSp) else T
@@ -385,6 +400,10 @@ def mle_container_job(n, container, int_counts=False):
             import scipy.sparse
             if container == 'ndarray-F':
                 Ac = np.asfortranarray(np.array(Cc))
+            elif container == 'coo-dup':
+                dv = [float(ev(model, e[0])) if isinstance(e[0], SVal) else float(e[0]) for e in dup]
+                out['inputs']['stored_entries'] = [[v, e[1], e[2]] for v, e in zip(dv, dup)]
+                Ac = scipy.sparse.coo_matrix((np.array(dv), (np.array([e[1] for e in dup]), np.array([e[2] for e in dup]))), shape=(n, n))
             else:
                 Ac = getattr(scipy.sparse, container + '_matrix')(np.array(Cc).astype(int) if int_counts else np.array(Cc))
             dn2 = lambda x: np.asarray(x.toarray() if hasattr(x, 'toarray') else x)
@@ -401,7 +420,7 @@ def mle_container_job(n, container, int_counts=False):
             bad = run_oracle(oracle(tolm(Cc), tolm(dn2(Co2).tolist()), tolm(dn2(T2).tolist()), tolv(np.asarray(pi2).reshape(-1)),
                                     tolm(np.asarray(Tr2).tolist()), tolv(np.asarray(pir2).reshape(-1)),
                                     type(T2) is type(Ac) and type(Co2) is type(Ac)))
-            if dn2(Ac).tolist() != Cc:
+            if not np.allclose(dn2(Ac), np.array(Cc), rtol=1e-12, atol=1e-12):
                 bad.append('caller-matrix-modified')
             out['violated'] = bad
             return out
@@ -472,4 +491,7 @@ def jobs(tier):
         if not q or fmt in ('csr', 'lil', 'coo'):
             J.append(dict(module='harness.C04', func='mle_container_job', name='mle[n=2,%s,one sweep]' % fmt, kwargs=dict(n=2, container=fmt),
                           sig_prefix='builders', deadline_s=250 if q else 1500, timeout_ms=40000 if q else 200000, tol=1e-5))
+    # the matrix assigns_to_counts hands to the builder: COO with repeated coordinates
+    J.append(dict(module='harness.C04', func='mle_container_job', name='mle[n=2,coo with repeated coordinates,one sweep]', kwargs=dict(n=2, container='coo-dup'),
+                  sig_prefix='builders', deadline_s=250 if q else 1500, timeout_ms=40000 if q else 200000, tol=1e-5))
     return J
